@@ -22,8 +22,8 @@ func c18Signed(c *Ctx) {
 		}
 		var verify []ssa.Instruction
 		allCalls(fn, false, func(_ *ssa.Function, call ssa.CallInstruction) {
-			if calleeName(call) == "verifyFooterSignature" {
-				verify = append(verify, call.(ssa.Instruction))
+			if ci, ok := call.(ssa.Instruction); ok && leadsToVerify(call, 2) {
+				verify = append(verify, ci)
 			}
 		})
 		if len(verify) == 0 {
@@ -48,8 +48,8 @@ func c18Signed(c *Ctx) {
 				trailing = bo
 			}
 		})
-		if !c.Anchor(rule, FuncKey(fn)+": trailing length", trailing != nil) {
-			continue
+		if trailing == nil {
+			continue // a helper that only verifies: the decision is made by its caller
 		}
 		n++
 		avoid := map[*ssa.BasicBlock]bool{}
@@ -99,4 +99,23 @@ func c18Signed(c *Ctx) {
 			FuncKey(fn)+" can return successfully ("+p.Pos(bad)+") from the point where the trailing bytes of the footer were measured without verifying a signature and without testing the footer's EncryptionAlgorithm: a signed plaintext footer with its 28 signature bytes cut off opens as an ordinary file, and everything the footer says — schema, row counts, key/value metadata, offsets — can be altered unnoticed")
 	}
 	c.Min(rule, 1)
+}
+
+// leadsToVerify: the call is verifyFooterSignature or a function of the same
+// package that calls it (to the given depth).
+func leadsToVerify(call ssa.CallInstruction, depth int) bool {
+	if calleeName(call) == "verifyFooterSignature" {
+		return true
+	}
+	callee := call.Common().StaticCallee()
+	if callee == nil || depth == 0 || callee.Blocks == nil || fnPkgPath(callee) != modPath {
+		return false
+	}
+	found := false
+	allCalls(callee, false, func(_ *ssa.Function, c2 ssa.CallInstruction) {
+		if leadsToVerify(c2, depth-1) {
+			found = true
+		}
+	})
+	return found
 }
